@@ -211,7 +211,11 @@ fn judge(env: &mut Env, co: &mut CaseOut, sc: &Scenario, faulty_runs: &[Vec<Faul
         return;
     }
     // the cache record itself: equal to the one a fresh generation writes
-    if c.prestate != "revert" {
+    // (only where the record is a function of sources and configuration at all: if the
+    // reference run under other hash keys wrote a different record, that is C14's
+    // finding, not a recovery problem)
+    let record_deterministic = sc.reference.get(".typecache") == sc.golden.get(".typecache");
+    if c.prestate != "revert" && record_deterministic {
         if let (Some(a), Some(b)) = (files.get(".typecache"), sc.golden.get(".typecache")) {
             if a != b {
                 co.violate_hint(
